@@ -73,7 +73,7 @@ def run(rep, tier):
     mstores = [e for e in fmm.events if e["kind"] == "store" and not isinstance(e["value"], (tuple, sp.Matrix))]
     nn = n + 1                                     # the frame count after its increment
     for fld, cur in (("average_", "current_hists_"), ("average_force_", "current_hists_force_")):
-        st = [e for e in mstores if re.search(r"->%s\.data\(\)\.y\(\)$" % fld, e["target"].replace(" ", ""))]
+        st = [e for e in mstores if re.search(r"(->|\.)%s\.data\(\)\.y\(\)$" % fld, e["target"].replace(" ", ""))]
         ok, got = False, "no store found"
         if len(st) == 1:
             v = st[0]["value"]
